@@ -67,6 +67,10 @@ func validateJSONPatches(patches []byte) error {
 			return fmt.Errorf("%s: invalid path", patch.JSONPatch)
 		}
 
+		if !isJSONPointer(path) {
+			return fmt.Errorf("%s: invalid path", patch.JSONPatch)
+		}
+
 		if strings.HasPrefix(path, "/"+document.ServiceProperty) {
 			return fmt.Errorf("%s: cannot modify services", patch.JSONPatch)
 		}
@@ -82,6 +86,10 @@ func validateJSONPatches(patches []byte) error {
 				return fmt.Errorf("%s: invalid from", patch.JSONPatch)
 			}
 
+			if !isJSONPointer(from) {
+				return fmt.Errorf("%s: invalid from", patch.JSONPatch)
+			}
+
 			if strings.HasPrefix(from, "/"+document.ServiceProperty) {
 				return fmt.Errorf("%s: cannot modify services", patch.JSONPatch)
 			}
@@ -93,4 +101,11 @@ func validateJSONPatches(patches []byte) error {
 	}
 
 	return nil
+}
+
+// isJSONPointer checks the one syntax rule of RFC 6901: a JSON pointer is either empty or starts with '/'.
+// The JSON patch library ignores whatever precedes the first '/', so that 'x/service/0' would address the
+// first service without being recognised as a protected location.
+func isJSONPointer(pointer string) bool {
+	return pointer == "" || strings.HasPrefix(pointer, "/")
 }
